@@ -80,6 +80,15 @@ func CheckStorageHealth(storage SlabStorage, expectedNumberOfRootSlabs int) (map
 		}
 	}
 
+	// Every referenced slab must be among the iterated slabs.  A slab that was
+	// removed (pending or committed deletion) is skipped by the slab iterator,
+	// so a dangling reference to it would otherwise go unnoticed.
+	for childID, parentID := range parentOf {
+		if _, ok := slabs[childID]; !ok {
+			return nil, NewSlabNotFoundErrorf(childID, "slab referenced by %s not found", parentID)
+		}
+	}
+
 	rootsMap := make(map[SlabID]struct{})
 	visited := make(map[SlabID]struct{})
 	var id SlabID
